@@ -10,7 +10,7 @@ namespace Meddly
 namespace Plugins
 open Funcs
 
-def specChain : List Ops.SpecFn := [Ops.specSet]
+def specChain : List Ops.SpecFn := [Ops.specSet, Ops.specNumBasic]
 
 def stepChain : List (St → Nat → List String → Option St) := []
 
